@@ -12,13 +12,17 @@ Case line (kind `a2`), fields separated by `|`:
           (`=` same object, `T` TraitError, `E` ValueError, `<id>` returns that pool object; `-` no validator) ·
           VK the validator's n-th call fails · D constant default · Z class shape (plain; `s`: declared in a base
           class and overridden *by value* D2 in the subclass the object belongs to; `t`: the same TraitType
-          instance is bound to an earlier name first) · TT real trait type used (table-driven TraitType / Int / Str)
+          instance is bound to an earlier name first; `i`: everything is declared in a base class and the object is an
+          instance of a subclass that inherits it) · TT real trait type used (table-driven TraitType / Int / Str /
+          expr = traits.api.Expression, which stores the assigned string and validates by compiling it: pool id
+          `code_k` stands for the fresh code object)
   pool    ids are positions in `names`; 0 = Uninitialized, 1 = Undefined, 2 = None.  eq/ne are the REAL
           `bool(a == b)` / `bool(a != b)` outcomes (y / n / r = raises), computed from the objects
   handlers H behaviour per handler id (o ok, r raises, k<n> raises at the n-th handler call of the case,
           x / x<n> unregisters itself) · RL/RO re-raising exception handlers on the legacy / observe stacks ·
           S static handlers in class order (a `_anytrait_changed`, c `_x_changed`, f `_x_fired`)
-  ops     ird h / iro h (decorated @on_trait_change / @observe methods; first) · ctor v (constructor keyword;
+  ops     ird h [c|f] / iro h [c|f] (decorated @on_trait_change / @observe methods, all ird before all iro, first;
+          with c / f the method carries the magic name _x_changed / _x_fired) · ctor v (constructor keyword;
           next) · set v · del · get · setq v · rd h p / ud h · ra h p / ua h (anytrait) · ro h / uo h
 
 Output, per op:  ok|err <Exc> v=<read value> s=<__dict__ slot> i=<instance trait exists> n=<len tnotifiers>,<len
@@ -104,6 +108,15 @@ def corpus():
     # regression (F23, fixed by 84d55f9): the comparison mode used to be lost on a second as_ctrait()
     out.append(mk_case(base_T(C="0", Z="s", D2="3"), names, allh, 0, 0, ["c0"], ["ro 2", "set 4", "set 4"]))
     out.append(mk_case(base_T(C="1", Z="t"), names, allh, 0, 0, ["c0"], ["ro 2", "set 3", "set 4", "set 3"]))
+    # an @observe / @on_trait_change method with a magic name, inherited by the subclass the object belongs to
+    out.append(mk_case(base_T(C="0", Z="i"), names, ["o", "o", "o"], 0, 0, ["a0"],
+                       ["ird 1 f", "iro 2 c", "set 3", "set 3", "set 4", "del"]))
+    out.append(mk_case(base_T(K="E", Z="i"), names, ["o", "o"], 0, 0, [], ["iro 1 f", "set 3", "set 3"]))
+    # Expression: stores the assigned string, validates by compiling (code_k = the fresh code object)
+    en = ["Uninitialized", "Undefined", "None", "expr_0", "expr_a", "expr_b", "expr_c", "expr_bad", "int7", "code_k"]
+    for c in "012":
+        out.append(mk_case(base_T(C=c, O="1", P="o", TT="expr", D="3", V="T,T,T,9,9,9,9,T,T,T"), en, ["o", "o", "o", "o"], 0, 0,
+                           ["a0", "c1"], ["rd 2 0", "ro 3", "set 4", "set 5", "set 6", "set 7", "set 8", "del", "get"]))
     # raising handlers, self-removing handlers, re-raise
     out.append(mk_case(base_T(C="0"), names, ["r", "x", "r", "o"], 0, 0, ["c0"],
                        ["rd 1 0", "ro 2", "ra 3 0", "set 3", "set 3", "set 4"]))
@@ -144,6 +157,8 @@ def random_names(rng, tt):
         extra = ["int1", "int7", "big_a", "big_b"][: rng.randint(2, 4)] + rng.sample(["str_c", "float1", "nan", "arr_a"], 2)
     elif tt == "str":
         extra = ["str_a", "str_b", "str_c"][: rng.randint(2, 3)] + rng.sample(["int1", "nan", "tup_a", "eqraises"], 2)
+    elif tt == "expr":
+        return names + ["expr_0", "expr_a", "expr_b", "expr_c", "expr_bad", rng.choice(["int7", "tup_a", "nan"]), "code_k"]
     else:
         for _ in range(rng.randint(1, 2)):
             grp = rng.choice(PAIRS)
@@ -159,7 +174,7 @@ def random_names(rng, tt):
 
 
 def random_case(rng):
-    tt = rng.choice(["tab"] * 8 + ["int", "str"])
+    tt = rng.choice(["tab"] * 8 + ["int", "str", "expr"])
     names = random_names(rng, tt)
     n = len(names)
     T = base_T(TT=tt)
@@ -172,6 +187,13 @@ def random_case(rng):
     elif tt == "str":
         tab = ["=" if names[i] in A.STR_NAMES else "T" for i in range(n)]
         T["V"] = ",".join(tab)
+    elif tt == "expr":
+        # Expression: compiles the string (a new code object each time = `code_k`), stores the string itself
+        kk = names.index("code_k")
+        tab = [str(kk) if names[i] in A.EXPR_OK else "T" for i in range(n)]
+        T["V"] = ",".join(tab)
+        T["O"], T["P"], T["Q"] = "1", "o", "0"
+        valid = [i for i in range(2, n) if names[i] != "code_k"]
     else:
         if rng.random() < 0.3:
             tab = None
@@ -199,11 +221,15 @@ def random_case(rng):
             T["VK"] = str(rng.randint(0, 4))
     ok_default = [i for i in range(2, n) if names[i] not in A.NO_DEFAULT
                   and (tab is None or tt == "tab" or tab[i] == "=")]
+    if tt == "expr":
+        ok_default = [names.index("expr_0")]
     T["D"] = str(rng.choice(ok_default)) if ok_default and rng.random() < 0.6 else ("2" if tt == "tab" else
                                                                                    str(ok_default[0]))
     if tt == "tab" and rng.random() < 0.12:
         T["Z"] = rng.choice("st") if T["K"] == "T" else "t"
         T["D2"] = str(rng.choice(ok_default)) if ok_default else "2"
+    elif rng.random() < 0.15:
+        T["Z"] = "i"
     # handlers and their roles
     nh = rng.randint(1, 5)
     roles = {}
@@ -226,12 +252,18 @@ def random_case(rng):
     RL = 1 if rng.random() < 0.04 else 0
     RO = 1 if rng.random() < 0.04 else 0
     ops = []
+    # decorated methods may carry a magic name (_x_changed / _x_fired) when no static handler uses it
+    free_magic = [m for m in ("c", "f") if not any(x[0] == m for x in S)]
+    if rng.random() < (0.6 if T["Z"] == "i" else 0.15):
+        rng.shuffle(free_magic)
+    else:
+        free_magic = []
     for h in rest:
         if roles[h] == "idyn":
-            ops.append("ird %d" % h)
+            ops.append("ird %d" % h + (" " + free_magic.pop() if free_magic and rng.random() < 0.4 else ""))
     for h in rest:
         if roles[h] == "iobs":
-            ops.append("iro %d" % h)
+            ops.append("iro %d" % h + (" " + free_magic.pop() if free_magic and rng.random() < 0.8 else ""))
     if rng.random() < 0.2:
         ops.append("ctor %d" % rng.choice(valid))
     pending = [h for h in rest if roles[h] in ("dyn", "obs", "any")]
@@ -328,12 +360,16 @@ def run_impl(case):
             roles.setdefault(int(o[1]), "any")
         elif o[0] in ("ro", "uo", "iro"):
             roles.setdefault(int(o[1]), "iobs" if o[0] == "iro" else "obs")
+    meth = {}
     for o in ops:       # a decorated handler keeps that role even if `rd`/`ro` names it again
         if o[0] == "ird":
             roles[int(o[1])] = "idyn"
+            meth[int(o[1])] = "_dyn_%s" % o[1] if len(o) < 3 else {"c": "_x_changed", "f": "_x_fired"}[o[2]]
         if o[0] == "iro":
             roles[int(o[1])] = "iobs"
+            meth[int(o[1])] = "_obs_%s" % o[1] if len(o) < 3 else {"c": "_x_changed", "f": "_x_fired"}[o[2]]
     holder = {}
+    BARE = object()     # marker: a decorated observer was called with something that is not a change event
 
     def fire(h, old, new):
         n = len(log)
@@ -351,13 +387,13 @@ def run_impl(case):
         if role == "dyn":
             obj.on_trait_change(fns[h], "x", remove=True)
         elif role == "idyn":
-            obj.on_trait_change(getattr(obj, "_dyn_%d" % h), "x", remove=True)
+            obj.on_trait_change(getattr(obj, meth[h]), "x", remove=True)
         elif role == "any":
             obj.on_trait_change(fns[h], remove=True)
         elif role == "obs":
             obj.observe(fns[h], "x", remove=True)
         elif role == "iobs":
-            obj.observe(getattr(obj, "_obs_%d" % h), "x", remove=True)
+            obj.observe(getattr(obj, meth[h]), "x", remove=True)
 
     def mk_dyn(h):
         def fn(obj, name, old, new):
@@ -385,13 +421,18 @@ def run_impl(case):
     def mk_idyn(h):
         def m(self, obj, name, old, new):
             fire(h, old, new)
-        m.__name__ = "_dyn_%d" % h
+        m.__name__ = meth[h]
         return m
 
     def mk_iobs(h):
+        from traits.observation.api import TraitChangeEvent
+
         def m(self, event):
-            fire(h, event.old, event.new)
-        m.__name__ = "_obs_%d" % h
+            if isinstance(event, TraitChangeEvent):
+                fire(h, event.old, event.new)
+            else:
+                fire(h, BARE, event)        # called through some other mechanism with a bare value
+        m.__name__ = meth[h]
         return m
 
     fns = {}
@@ -405,6 +446,14 @@ def run_impl(case):
         trait = Int(pool.objs[dflt], comparison_mode=ComparisonMode(cmode))
     elif T["TT"] == "str":
         trait = Str(pool.objs[dflt], comparison_mode=ComparisonMode(cmode))
+    elif T["TT"] == "expr":
+        from traits.api import Expression
+
+        class Ex(Expression):
+            def post_setattr(self, object, name, value):
+                state["post"].append(value)
+                Expression.post_setattr(self, object, name, value)
+        trait = Ex(pool.objs[dflt], comparison_mode=ComparisonMode(cmode))
     else:
         trait = A.make_tab_trait(pool, vtab, dflt, kind=kind, cmp=cmode, orig=int(orig), porig=int(T["Q"] == "1"),
                                  post=T["P"], vk=vk, state=state)
@@ -415,13 +464,23 @@ def run_impl(case):
             ns["_anytrait_changed"] = mk_any_static(h)
         else:
             ns["_x_changed" if k == "c" else "_x_fired"] = mk_static(h)
-    for h, role in roles.items():
-        if role == "idyn":
-            ns["_dyn_%d" % h] = on_trait_change("x")(mk_idyn(h))
-        elif role == "iobs":
-            ns["_obs_%d" % h] = observe("x")(mk_iobs(h))
+    for o in ops:          # definition order = order of the init-time registrations of each group
+        if o[0] == "ird":
+            ns[meth[int(o[1])]] = on_trait_change("x")(mk_idyn(int(o[1])))
+    for o in ops:
+        if o[0] == "iro":
+            ns[meth[int(o[1])]] = observe("x")(mk_iobs(int(o[1])))
     hits = []
-    if T["Z"] == "s":
+    if T["Z"] == "i":
+        ns["x"] = trait
+        try:
+            Base = type("Base", (HasTraits,), ns)
+            cls = type("Sub", (Base,), {"extra": Int(0)})
+        except Exception as e:
+            return "class-definition-raised " + A.show_exc(e), [_hit(
+                "class-definition-raised:inheriting-subclass:" + A.show_exc(e),
+                "defining a subclass that inherits the handlers raised %s" % A.show_exc(e))], tags
+    elif T["Z"] == "s":
         Base = type("Base", (HasTraits,), {"x": trait})
         ns["x"] = pool.objs[int(T["D2"])]
         cls = type("Sub", (Base,), ns)
@@ -522,7 +581,7 @@ def run_impl(case):
                     elif k == "rd":
                         h = int(op[1])
                         if roles[h] == "idyn":
-                            obj.on_trait_change(getattr(obj, "_dyn_%d" % h), "x", priority=op[2] == "1")
+                            obj.on_trait_change(getattr(obj, meth[h]), "x", priority=op[2] == "1")
                         else:
                             obj.on_trait_change(fns[h], "x", priority=op[2] == "1")
                         registered[h] = 1
@@ -538,7 +597,7 @@ def run_impl(case):
                     elif k == "ro":
                         h = int(op[1])
                         if roles[h] == "iobs":
-                            obj.observe(getattr(obj, "_obs_%d" % h), "x")
+                            obj.observe(getattr(obj, meth[h]), "x")
                         else:
                             obj.observe(fns[h], "x")
                         registered[h] += 1
@@ -577,6 +636,8 @@ def run_impl(case):
             mode_name = {0: "none", 1: "identity", 2: "equality"}[eff_mode] if kind == "T" else "event"
             expected = None          # list of (old, new) every registered handler must have seen
             check_legacy = True
+            old_spec = new_spec = A  # what a truthful call must carry
+            f22_pattern = False
             if k in ("set", "ctor", "setq"):
                 if act in ("T", "E"):
                     tags.add("rejected")
@@ -598,13 +659,19 @@ def run_impl(case):
                         "an accepted assignment raised %s" % A.show_exc(exc)))
                 if kind == "T" and slot_after is not new:
                     hits.append(_hit("assignment-not-stored:" + k, "the accepted value is not what is stored afterwards"))
+                wobj = vobj if act == "=" else pool.objs[int(act)]      # the validated object
                 if k == "setq":
                     expected = []
                 elif kind == "E":
                     expected = [(pool.objs[A.UNDEF], new)]
+                    old_spec, new_spec = pool.objs[A.UNDEF], new
                 else:
                     old = dobj if slot_before is A else slot_before
                     expected, check_legacy = real_change(eff_mode, old, new, tags)
+                    old_spec, new_spec = old, new
+                    # F22 can only explain a wrong call COUNT, and only when the validated object relates to the
+                    # old value differently than the stored one does
+                    f22_pattern = orig and ((old is new) != (old is wobj))
                 if any(new is pool.objs[i] for i in pool.veto) and k != "setq":
                     tags.add("veto-value")
                     expected = None
@@ -613,6 +680,7 @@ def run_impl(case):
                     expected = []
                 else:
                     expected, check_legacy = real_change(eff_mode, slot_before, dobj, tags)
+                    old_spec, new_spec = slot_before, dobj
                 if exc is not None:
                     hits.append(_hit("delete-raised", "del raised %s" % A.show_exc(exc)))
             elif k == "get":
@@ -645,15 +713,22 @@ def run_impl(case):
                 hk = "static" if role == "static" else "dynamic" if legacy else "observe"
                 if len(got) == len(exp) and all(g[0] is e[0] and g[1] is e[1] for g, e in zip(got, exp)):
                     continue
-                if orig and kind == "T":
+                osfx = ":setattr-original-value" if (orig and kind == "T") else ""
+                # truthfulness first: every call made must carry (readable before, readable after)
+                untruthful = [g for g in got if not (
+                    (g[0] is old_spec) and (g[1] is new_spec))] if (old_spec is not A and new_spec is not A) else []
+                if untruthful:
+                    sig = "untruthful-old-new:%s:%s:%s%s" % (hk, mode_name, k, osfx)
+                elif orig and kind == "T" and f22_pattern:
+                    # finding F22: the C pre-filter compared the VALIDATED value with the old one
                     sig = "identity-prefilter-compares-validated-value:setattr-original-value"
                 elif len(got) < len(exp):
-                    sig = "missed-call:%s:%s:%s" % (hk, mode_name, k)
+                    sig = "missed-call:%s:%s:%s%s" % (hk, mode_name, k, osfx)
                 elif len(got) > len(exp):
                     same = all(o is n for o, n in got[len(exp):])
-                    sig = "spurious-call:%s:%s:%s%s" % (hk, mode_name, k, ":same-object" if same else "")
+                    sig = "spurious-call:%s:%s:%s%s%s" % (hk, mode_name, k, ":same-object" if same else "", osfx)
                 else:
-                    sig = "untruthful-old-new:%s:%s:%s" % (hk, mode_name, k)
+                    sig = "untruthful-old-new:%s:%s:%s%s" % (hk, mode_name, k, osfx)
                 hits.append(_hit(sig, "handler %d (%s) saw %s, the property requires %s" % (
                     h, role, [(pool.show(o), pool.show(n)) for o, n in got],
                     [(pool.show(o), pool.show(n)) for o, n in exp]), step=idx, op=" ".join(op)))
